@@ -1,11 +1,28 @@
 (* C06 — deterministic partitioners give the same partition for every thread
-   count.  What is PROVED here is schedule independence of the parallel
-   skeletons the algorithms are built from, for EVERY split tree (Lib/Rayon.v),
-   and the exactness of the all-equal checker applied to the implementation's
-   outputs under pools 1..16.  Algorithm-level corollaries are added as the
-   algorithm models land.  What real work stealing does is only sampled. *)
-From Coupe Require Import Lib.Prelude Lib.Report Lib.Rayon Run.RunC06 Proofs.C06Proofs.
-From Coq Require Import Permutation.
+   count.
+
+   What is PROVED here, for EVERY split tree / order of writes (the model of a
+   rayon schedule, Lib/Rayon.v):
+   (1) schedule independence of the parallel skeletons the algorithms are built
+       from, and the exactness of the all-equal checker applied to the
+       implementation's outputs under pools 1..16 (first half of the file);
+   (2) the algorithm-level statements that the per-algorithm developments
+       contain or that follow from them with a few lines of glue
+       (Proofs/C06Collect.v): the tools' dual graph (C18), compute_parts_load /
+       imbalance / sums (C16), MultiJagged up to a renaming of parts (C11),
+       Rcb's split fold (the lemma behind C04), ZCurve for every sort oracle
+       and HilbertCurve for every split vector (C09).
+   NOT proved: [forall s1 s2, alg s1 x = alg s2 x] for the whole of Rcb, Rib,
+   HilbertCurve, ZCurve, KMeans, MultiJagged; the theorems named [..._partial]
+   say which part of it they cover.  What real work stealing does is only
+   sampled by the check. *)
+From Coupe Require Import Lib.Prelude Lib.SFloat Lib.Report Lib.Rayon Run.RunC06 Proofs.C06Proofs.
+From Coupe Require Proofs.C06Collect.
+From Coupe Require Model.Dual Model.Metrics Model.MultiJagged Proofs.MultiJaggedProofs Proofs.MultiJaggedExact
+  Model.Rcb Proofs.SFOrder Proofs.RcbBalance Model.SfcPart Proofs.SfcProofs Proofs.ZCurveProofs Proofs.ZCheckProofs.
+From Coq Require Import Permutation QArith.QArith Sorting.Sorted Floats.SpecFloat.
+Import C06Collect.
+Close Scope Q_scope.
 
 Theorem C06_checker : forall outs,
   all_same outs = true <-> (forall o1 o2, In o1 outs -> In o2 outs -> o1 = o2).
@@ -57,3 +74,170 @@ Theorem C06_canon_same_kernel : forall p q, canon p = canon q ->
                         (x = y <-> x' = y').
 Proof. exact canon_same_kernel. Qed.
 Print Assumptions C06_canon_same_kernel.
+
+(* ===================== algorithm-level statements (collected) ===================== *)
+
+(* ---- the tools' dual graph (C18): the row writes into `indice_locks` and the
+   copies into `indices` may each be performed in ANY order: the CSR matrix is
+   the same for any two schedules, on every well-formed mesh *)
+Theorem C06_dual_sched_indep : forall s1 t1 s2 t2 m,
+  (forall ws, Permutation ws (s1 ws)) -> (forall ts, Permutation ts (t1 ts)) ->
+  (forall ws, Permutation ws (s2 ws)) -> (forall ts, Permutation ts (t2 ts)) ->
+  Dual.wf_mesh m = true -> Dual.dual_sched s1 t1 m = Dual.dual_sched s2 t2 m.
+Proof. exact DualC.dual_two_schedules. Qed.
+Print Assumptions C06_dual_sched_indep.
+
+(* ---- compute_parts_load, imbalance, max_imbalance, sum() (C16; used by the
+   improving algorithms and the metrics): same value for any two split trees
+   of rayon's fold / reduce_with (integer weights) *)
+Theorem C06_parts_load_sched_indep : forall t1 t2 k p ws, (0 < k)%nat ->
+  Metrics.compute_parts_load t1 k p ws = Metrics.compute_parts_load t2 k p ws.
+Proof. exact MetricsC.parts_load_two_trees. Qed.
+Print Assumptions C06_parts_load_sched_indep.
+
+Theorem C06_imbalance_sched_indep : forall t1 t2 k p ws,
+  (0 < k)%nat -> Forall (fun q => (q < k)%nat) p -> length p = length ws ->
+  Metrics.imbalance t1 k p ws = Metrics.imbalance t2 k p ws
+  /\ Metrics.max_imbalance t1 k p ws = Metrics.max_imbalance t2 k p ws.
+Proof. exact MetricsC.imbalance_two_trees. Qed.
+Print Assumptions C06_imbalance_sched_indep.
+
+Theorem C06_par_sum_sched_indep : forall t1 t2 xs, Metrics.par_sum t1 xs = Metrics.par_sum t2 xs.
+Proof. exact MetricsC.par_sum_two_trees. Qed.
+Print Assumptions C06_par_sum_sched_indep.
+
+(* ---- MultiJagged (C11), "up to a renaming of parts".
+   PARTIAL (1): the only schedule-dependent DATA of the model are the order in
+   which the leaves draw their number from the atomic counter ([ord]) and the
+   block decomposition of rayon's scan ([blk]).  For every arithmetic, any two
+   leaf orders give the same partition of the index set (same kernel): two
+   elements share a part in one run iff they do in the other. *)
+Theorem C06_multijagged_leaf_order_partial :
+  forall (A : MultiJagged.arith) D npts (wts : list (MultiJagged.num A)) sorter blk cxlt,
+  MultiJaggedProofs.sorter_ok sorter cxlt ->
+  forall sch parts d ord1 ord2 p0 p1 p2,
+  MultiJaggedProofs.WfScheme A sch parts d ->
+  MultiJaggedProofs.ord_ok ord1 (N.to_nat parts) -> MultiJaggedProofs.ord_ok ord2 (N.to_nat parts) ->
+  length p0 = npts ->
+  MultiJagged.mj_with_scheme A D npts wts sorter blk ord1 sch p0 = Ok p1 ->
+  MultiJagged.mj_with_scheme A D npts wts sorter blk ord2 sch p0 = Ok p2 ->
+  forall x y, (x < npts)%nat -> (y < npts)%nat ->
+    (nth_opt p1 x = nth_opt p1 y <-> nth_opt p2 x = nth_opt p2 y).
+Proof. exact MultiJaggedProofs.mj_ord_indep. Qed.
+Print Assumptions C06_multijagged_leaf_order_partial.
+
+(* PARTIAL (2): at exact arithmetic, for non-negative weights and increasing
+   non-negative thresholds, the split positions of one slab are the same for
+   every block decomposition of the scan.  What is missing for the whole
+   algorithm: this is a statement about ONE call of compute_split_positions;
+   it is not lifted to [multi_jagged blk1 = multi_jagged blk2], and nothing is
+   proved for binary64 (where a different association of the block sums can
+   round differently -- the property's "when all arithmetic is exact"). *)
+Theorem C06_multijagged_blocks_partial : forall wl ths bs1 bs2,
+  Forall (Qle 0) wl -> StronglySorted Qle ths -> Forall (Qle 0) ths ->
+  MultiJagged.csp_core MultiJagged.QA wl ths bs1 = MultiJagged.csp_core MultiJagged.QA wl ths bs2.
+Proof. exact MultiJaggedExact.csp_core_blocks_irrelevant. Qed.
+Print Assumptions C06_multijagged_blocks_partial.
+
+(* ---- Rcb / Rib: the fold + reduce of par_rcb_split (the lemma behind C04).
+   PARTIAL.  For ANY two split trees of the same fold over the same slice
+   (coordinates not NaN), the two results (count, weight_left, pivot index,
+   pivot coordinate) agree on: the weight left of the target (both are the
+   exact sum [Wl]); whether a point lies on the right at all; the pivot
+   COORDINATE up to "neither is below the other" (both are minimal among the
+   points on the right: equal numbers; the INDEX may differ between trees when
+   several points share that coordinate); hence the set that reorder_split
+   puts on the low side ([filter (< pivot coordinate)]) is the same.
+   What is missing: [forall s1 s2, rcb s1 x = rcb s2 x].  The two runs may
+   hold the same sets in different ORDERS after the in-place reordering, and
+   invariance of the later folds under that reordering (true for exact integer
+   weight sums) is not proved; weights are modelled as exact integers. *)
+Theorem C06_rcb_fold_sched_indep_partial : forall t s1 s2 (xs : list (Rcb.keyed spec_float)),
+  SFOrder.f32v t = true -> Forall (fun x : Rcb.keyed spec_float => SFOrder.f32v (fst x) = true) xs ->
+  let '(_, w1, n1, d1) := Rcb.par_fold spec_float flt f32_sub Rcb.f32_zero Rcb.f32_inf true t s1 0%nat xs in
+  let '(_, w2, n2, d2) := Rcb.par_fold spec_float flt f32_sub Rcb.f32_zero Rcb.f32_inf true t s2 0%nat xs in
+  w1 = RcbBalance.Wl spec_float flt t xs /\ w2 = RcbBalance.Wl spec_float flt t xs
+  /\ (n1 = None <-> n2 = None)
+  /\ flt d1 d2 = false /\ flt d2 d1 = false
+  /\ filter (fun y : Rcb.keyed spec_float => flt (fst y) d1) xs
+     = filter (fun y : Rcb.keyed spec_float => flt (fst y) d2) xs
+  /\ (forall i, n1 = Some i -> exists e, nth_opt xs i = Some e /\ fst e = d1 /\ flt d1 t = false
+                               /\ forall y, In y xs -> flt (fst y) t = false -> flt (fst y) d1 = false)
+  /\ (forall i, n2 = Some i -> exists e, nth_opt xs i = Some e /\ fst e = d2 /\ flt d2 t = false
+                               /\ forall y, In y xs -> flt (fst y) t = false -> flt (fst y) d2 = false).
+Proof. exact RcbF.fold_two_schedules32. Qed.
+Print Assumptions C06_rcb_fold_sched_indep_partial.
+
+(* the same for any coordinate type with a strict weak order on its valid values *)
+Theorem C06_rcb_fold_generic_partial :
+  forall (C : Type) (ltb : C -> C -> bool) (dist : C -> C -> C) (zero inf : C) (valid : C -> bool),
+  (forall x, valid x = true -> ltb x x = false) ->
+  (forall x y z, valid x = true -> valid y = true -> valid z = true -> ltb x y = true -> ltb x z = true \/ ltb z y = true) ->
+  (forall x y z, valid x = true -> valid y = true -> valid z = true -> ltb x y = true -> ltb y z = true -> ltb x z = true) ->
+  valid inf = true ->
+  forall t s1 s2 (xs : list (Rcb.keyed C)),
+  valid t = true -> Forall (fun x : Rcb.keyed C => valid (fst x) = true) xs ->
+  RcbF.fold_agree C ltb t xs (Rcb.par_fold C ltb dist zero inf true t s1 0%nat xs)
+                             (Rcb.par_fold C ltb dist zero inf true t s2 0%nat xs).
+Proof. exact RcbF.fold_two_schedules. Qed.
+Print Assumptions C06_rcb_fold_generic_partial.
+
+(* ---- ZCurve (C09).  PARTIAL.  The model's only unspecified choice is the
+   tie order of par_sort_unstable_by_key (a sort oracle); the id writes go to
+   pairwise distinct indices (C06_writes_sched_indep).  For ANY two sort
+   oracles both runs return and both outputs are consecutive runs, of the
+   prescribed sizes, of the points sorted by the SAME cell codes.
+   What is missing: equality of the two outputs -- points with EQUAL cell codes
+   that straddle a chunk boundary may be attributed differently; that rayon's
+   sort takes no timing-dependent decision on ties is an assumption of the
+   trusted base, not a theorem.  The quadrant function is data (its own
+   dependence on the pool size through the inexact OBB sums is the open known
+   finding obb-inexact-sums). *)
+Theorem C06_zcurve_every_sort_oracle_partial : forall nq maxo q s1 s2 order k n p0,
+  (1 <= nq)%nat -> ZCurveProofs.sort_contract s1 -> ZCurveProofs.sort_contract s2 ->
+  (forall path x, (q path x < N.of_nat nq)%N) ->
+  length p0 = n -> (order <= maxo)%nat -> (1 <= k)%nat ->
+  exists p1 p2, SfcPart.zcurve true nq maxo q s1 order k n p0 = Ok p1
+             /\ SfcPart.zcurve true nq maxo q s2 order k n p0 = Ok p2
+             /\ ZCheckProofs.zcurve_property (map (SfcPart.zcode q order []) (seq 0 n)) p1 k
+             /\ ZCheckProofs.zcurve_property (map (SfcPart.zcode q order []) (seq 0 n)) p2 k.
+Proof. exact ZC.zcurve_two_sorters. Qed.
+Print Assumptions C06_zcurve_every_sort_oracle_partial.
+
+(* ---- HilbertCurve (C09).  PARTIAL.  The schedule enters HilbertCurve only
+   through the f64 sums of the per-part weight histogram inside
+   weighted_quantiles (exact integer sums: C06_histogram_sched_indep above), i.e.
+   through the split vector.  For EVERY split vector -- whatever a schedule made
+   of those sums -- the ids are the library binary search of the curve indices:
+   total, monotone along the curve, equal indices get equal ids.
+   What is missing: that the split vector itself is the same for every schedule
+   (the model folds the f64 weights in sequence order; exactness of those sums
+   is a per-case premise of the check), and the curve indices are data. *)
+Theorem C06_hilbert_every_split_vector_partial : forall (splits idx : list N),
+  exists ids, SfcPart.assign_parts splits idx = Ok ids
+    /\ length ids = length idx
+    /\ SfcProofs.mono_pairs (combine idx ids)
+    /\ Forall (fun p => (p <= N.of_nat (length splits))%N) ids.
+Proof. exact HilC.hilbert_assign_any_splits. Qed.
+Print Assumptions C06_hilbert_every_split_vector_partial.
+
+(* non-vacuity of the collected statements: two different split trees of the
+   Rcb fold on a slice with a tie on the right (two points at coordinate 2):
+   different pivot INDEX, same weight, same pivot coordinate *)
+Definition ex_keyed : list (Rcb.keyed spec_float) :=
+  map (fun '(i, c) => (f64_to_f32 (f64_of_Z c), Rcb.mkitem i [f64_to_f32 (f64_of_Z c)] 1%Z))
+      [(0%nat, 0%Z); (1%nat, 2%Z); (2%nat, 1%Z); (3%nat, 2%Z)].
+Example C06_nonvacuous_rcb_fold :
+  let t := f64_to_f32 (f64_of_Z 2) in
+  let f s := Rcb.par_fold spec_float flt f32_sub Rcb.f32_zero Rcb.f32_inf true t s 0%nat ex_keyed in
+  let a1 := f Rcb.SLeaf in
+  let a2 := f (Rcb.SNode 2 Rcb.SLeaf Rcb.SLeaf) in
+  snd (fst a1) = Some 1%nat /\ snd (fst a2) = Some 3%nat
+  /\ snd (fst (fst a1)) = 2%Z /\ snd (fst (fst a2)) = 2%Z /\ snd a1 = snd a2.
+Proof. vm_compute. repeat split; reflexivity. Qed.
+
+Example C06_nonvacuous_parts_load :
+  Metrics.compute_parts_load (Metrics.Node 2 Metrics.Leaf (Metrics.Node 1 Metrics.Leaf Metrics.Leaf)) 3
+     [2; 0; 2; 1; 0]%nat [5; 6; 7; 8; 9]%Z
+  = Metrics.compute_parts_load Metrics.Leaf 3 [2; 0; 2; 1; 0]%nat [5; 6; 7; 8; 9]%Z.
+Proof. vm_compute. reflexivity. Qed.
